@@ -1,6 +1,7 @@
 package srvworld
 
 import (
+	"bytes"
 	"encoding/binary"
 	"fmt"
 	"math/big"
@@ -96,6 +97,27 @@ type Obs struct {
 	other []*sim.Datagram
 }
 
+// judgeChanProbe: a datagram sent by the bound peer from inside OnChannelDeleted (the end of
+// the binding has been announced). As a Data indication it may still be relayed (a permission for
+// the peer's address may be alive), as ChannelData never: the binding that gave it the number is over.
+func (x *Exec) judgeChanProbe(d *sim.Datagram, fromServer bool) {
+	if !fromServer {
+		return // the probe itself on its way to the relayed address
+	}
+	if x.w.curOp == "ChannelBind" {
+		// (the client binds the channel again in this very step: the datagram may come through the new binding)
+		x.St.inc("chan-deleted-probe-during-channelbind")
+
+		return
+	}
+	if len(d.Data) >= 4 && d.Data[0]&0xC0 == 0x40 {
+		x.fail([]string{"C02", "C07"}, "relayed-through-ended-binding", "a datagram the peer sent while OnChannelDeleted for its binding was running reached %v as ChannelData on channel %#x: the binding whose end was being announced still relayed", d.To, uint16(d.Data[0])<<8|uint16(d.Data[1]))
+
+		return
+	}
+	x.St.inc("chan-deleted-probe-relayed-as-data-indication")
+}
+
 func (x *Exec) observe() *Obs {
 	o := &Obs{}
 	ds := x.w.net.Wire(x.wireAt)
@@ -127,6 +149,11 @@ func (x *Exec) observe() *Obs {
 		pr[p.ID] = true
 	}
 	for _, d := range ds {
+		if x.w.cfg.ProbeChanDeleted && bytes.Contains(d.Data, ChanDeletedProbe) {
+			x.judgeChanProbe(d, d.SrcSock == x.w.srvSock.ID)
+
+			continue
+		}
 		switch {
 		case d.SrcSock == x.w.srvSock.ID:
 			o.s2c = append(o.s2c, d)
@@ -163,6 +190,12 @@ func (x *Exec) observe() *Obs {
 			}
 			if !complete || size == 0 {
 				break
+			}
+			if x.w.cfg.ProbeChanDeleted && bytes.Contains(c.rbuf[:size], ChanDeletedProbe) {
+				x.judgeChanProbe(&sim.Datagram{Time: time.Now(), From: x.w.srvAddr, To: c.Addr, Data: append([]byte{}, c.rbuf[:size]...), SrcSock: -1}, true)
+				c.rbuf = c.rbuf[size:]
+
+				continue
 			}
 			o.s2c = append(o.s2c, &sim.Datagram{Time: time.Now(), From: x.w.srvAddr, To: c.Addr, Data: append([]byte{}, c.rbuf[:size]...), SrcSock: -1})
 			c.rbuf = c.rbuf[size:]
